@@ -4222,6 +4222,15 @@ func (p *Posix) CopyObject(ctx context.Context, input s3response.CopyObjectInput
 		}
 		version = backend.GetPtrFromString(string(vId))
 
+		// REPLACE: content headers the request does not supply are dropped
+		for _, h := range []string{contentTypeHdr, contentEncHdr, contentLangHdr,
+			contentDispHdr, cacheCtrlHdr, expiresHdr} {
+			err := p.meta.DeleteAttribute(dstBucket, dstObject, h)
+			if err != nil && !errors.Is(err, meta.ErrNoSuchKey) {
+				return nil, fmt.Errorf("delete %v: %w", h, err)
+			}
+		}
+
 		// Store the provided object meta properties
 		err = p.storeObjectMetadata(nil, dstBucket, dstObject,
 			objectMetadata{
